@@ -892,6 +892,16 @@ package badger
 //@   assert[under-lock] before call Update : held(seq.lock) && arg0 == seq.db
 //@   assert[nothing-left-to-hand-out] before return : result == nil ==> seq.leased == seq.next
 
+// A new Sequence object starts without a lease (next == leased == 0) for the caller's key and
+// bandwidth and immediately takes one; an empty key or zero bandwidth is refused.
+//@ func (*DB).GetSequence
+//@   props C30
+//@   light
+//@   assert[starts-without-lease] before call updateLease : arg0 == seq && seq.db == db && seq.key == key && seq.bandwidth == bandwidth && seq.next == 0 && seq.leased == 0
+//@   assert[lease-error-returned] before return#3 : result1 == ret(updateLease#1) && result0 == seq
+//@   assert[empty-key-refused] before return#1 : result0 == nil && result1 == ErrEmptyKey && len(key) == 0
+//@   assert[zero-bandwidth-refused] before return#2 : result0 == nil && result1 == ErrZeroBandwidth && bandwidth == 0
+
 //@ func (*Sequence).Next
 //@   props C30
 //@   requires seq.db != nil
